@@ -57,6 +57,17 @@ def gen(rng, kind, b):
     if kind == "lazy-nested":
         inner = LazyStackedTensorDict(*[TensorDict({"a": mk_tensor(None, torch.float32, b[1:], i)}, b[1:]) for i in range(b[0])], stack_dim=0)
         return TensorDict({"ls": inner, "t": f32(1)}, b)
+    if kind == "lazy-dim1":
+        # stacked along dim 1 (written 1 or -1), members with an entry of their own shape, a nested node and a non-tensor entry
+        k = 2 + (b[0] % 2)
+        return LazyStackedTensorDict(*[TensorDict({"a": mk_tensor(None, torch.float32, [b[0], 2], i), "h": mk_tensor(None, torch.int16, [b[0], i + 1], i),
+                                                   "n": {"x": mk_tensor(None, torch.int64, [b[0]], i)}, "s": f"m{i}"}, [b[0]]) for i in range(k)],
+                                     stack_dim=1 if b[0] % 2 else -1)
+    if kind == "lazy-in-lazy":
+        inner = [LazyStackedTensorDict(*[TensorDict({"a": torch.full((2,), float(10 * i + j)),
+                                                     "p": c11_trips.tc_cls()(u=torch.full((2, 2), float(j)), v=torch.full((2,), i, dtype=torch.int16), tag=f"t{i}{j}", batch_size=[2])}, [2])
+                                         for j in range(2)], stack_dim=0) for i in range(b[0])]
+        return LazyStackedTensorDict(*inner, stack_dim=b[0] % 2)
     if kind == "tensorclass":
         return c11_trips.tc_cls()(u=f32(0, (2,)), v=mk_tensor(None, torch.int16, b, 1), tag="T", batch_size=b)
     if kind == "tensorclass-nested":
@@ -77,7 +88,7 @@ def gen(rng, kind, b):
     raise ValueError(kind)
 
 
-KINDS = ["lazy", "lazy-nested", "tensorclass", "tensorclass-nested", "nontensor-stack", "views", "rank0"]
+KINDS = ["lazy", "lazy-nested", "tensorclass", "tensorclass-nested", "nontensor-stack", "views", "rank0", "lazy-dim1", "lazy-in-lazy"]
 
 
 def run_ext(run):
@@ -95,7 +106,7 @@ def run_ext(run):
     try:
         with warnings.catch_warnings():
             warnings.simplefilter("ignore")
-            for it in range(32 if quick else 240):
+            for it in range(36 if quick else 270):
                 kind = KINDS[it % len(KINDS)]
                 b = [] if kind == "rank0" else rng.choice([[2], [3], [2, 2]] if kind not in ("njt",) else [[2], [3]])
                 if kind in ("lazy", "lazy-nested", "nontensor-stack") and it % 3 == 0:
@@ -126,7 +137,7 @@ def run_ext(run):
                             tag = "raise-" + "".join(ch if ch.isalnum() else "-" for ch in diff[7:50]) if diff.startswith("raised") else "differs"
                             run.oracle_fail("load_equals_saved(ext)", case, f"{api}(num_threads={nt}) on a {kind} tensordict: {diff}", f"{kind}:{api}:{tag}")
                         # readers in other processes
-                        if diff is None and kind not in ("tensorclass", "tensorclass-nested") and nt == 0:
+                        if diff is None and kind not in ("tensorclass", "tensorclass-nested", "lazy-in-lazy") and nt == 0:
                             for method, pool in pools.items():
                                 try:
                                     with time_limit(120):
